@@ -425,6 +425,9 @@ func smallConst(t string) (int, bool) {
 
 func (f *Frame) writableGoal(ref, key string) string {
 	s := f.s
+	if s.ownedKey(key) {
+		return "true"
+	}
 	goal := app(">=", ref, s.alloc0)
 	for mk, locs := range s.modKeys {
 		if mk == key || strings.HasPrefix(key, mk+".") {
